@@ -235,7 +235,6 @@ func (fs *Filespace) WriteFile(destPath string, data []byte, filemode os.FileMod
 	if file, ok = node.(*File); !ok {
 		return goaterr.Errorf("Node %s must be a file", destPath)
 	}
-	file.time = time.Now()
 	file.setData(data)
 	return nil
 }
